@@ -245,6 +245,24 @@ def run_bin(binpath, lines, timeout=240, env=None):
     return res
 
 
+def run_guarded(binpath, line, mem_bytes=3 << 30, timeout=6):
+    """One case in its own process under an address-space limit and a time limit (inputs the model marks as exhausting
+    memory).  -> the output line, or `killed` when the process was stopped by the limits / an allocation failure."""
+    import resource
+
+    def limits():
+        resource.setrlimit(resource.RLIMIT_AS, (mem_bytes, mem_bytes))
+    try:
+        p = subprocess.run([binpath], input=line + "\n", stdout=subprocess.PIPE, stderr=subprocess.DEVNULL, text=True,
+                           timeout=timeout, preexec_fn=limits, env=ENV)
+    except subprocess.TimeoutExpired:
+        return "killed"
+    for l in p.stdout.split("\n"):
+        if l.strip():
+            return l.partition(" ")[2]
+    return "killed"
+
+
 class Rng(random.Random):
     pass
 
